@@ -210,6 +210,16 @@ func init() {
 		fr.m.budget = fr.m.steps + fr.cint(args[0])
 		return nil
 	}
+	// verifExplore(mapOrderBudget, sched): from here on explore map iteration orders (rotations; at most
+	// mapOrderBudget non-default ones, -1 unlimited, 0 off) and goroutine schedules (sched != 0) or not.
+	harnessAPI["verifExplore"] = func(fr *frame, args []value) value {
+		n := fr.cint(args[0])
+		fr.m.mapOrderOn = n != 0
+		fr.m.mapBudget = int(n)
+		fr.m.schedFixed = fr.cint(args[1]) == 0
+		return nil
+	}
+	harnessAPI["verifNativeRepeat"] = func(fr *frame, args []value) value { return 1 }
 	harnessAPI["verifSetBudget"] = func(fr *frame, args []value) value {
 		fr.m.budget = fr.cint(args[0])
 		return nil
@@ -376,6 +386,30 @@ func init() {
 	reg("os.Getenv", func(fr *frame, args []value) value { return "" })
 	reg("os.LookupEnv", func(fr *frame, args []value) value { return tuple{"", false} })
 	reg("time.Sleep", func(fr *frame, args []value) value { fr.m.yield(fr); return nil })
+	// timers and tickers never fire within a run (stated in every harness that reaches them): the
+	// channel is real, nothing is ever sent on it; Stop/Reset are no-ops reporting an active timer.
+	mkTimer := func(fr *frame, typeName string, withChan bool) value {
+		tn := fr.fn.Pkg.Type(typeName)
+		t := tn.Type()
+		cell := zero(t)
+		if withChan {
+			st := cell.(structure)
+			ci := structFieldIndex(t, "C")
+			ct := t.Underlying().(*types.Struct).Field(ci).Type().Underlying().(*types.Chan)
+			st[ci] = fr.m.newChan(1, ct.Elem())
+		}
+		return &cell
+	}
+	reg("time.NewTicker", func(fr *frame, args []value) value { return mkTimer(fr, "Ticker", true) })
+	reg("time.NewTimer", func(fr *frame, args []value) value { return mkTimer(fr, "Timer", true) })
+	reg("time.AfterFunc", func(fr *frame, args []value) value { return mkTimer(fr, "Timer", false) })
+	reg("time.After time.Tick", func(fr *frame, args []value) value {
+		tm := mkTimer(fr, "Timer", true).(*value)
+		t := fr.fn.Pkg.Type("Timer").Type()
+		return (*tm).(structure)[structFieldIndex(t, "C")]
+	})
+	reg("(*time.Ticker).Stop (*time.Ticker).Reset", func(fr *frame, args []value) value { return nil })
+	reg("(*time.Timer).Stop (*time.Timer).Reset", func(fr *frame, args []value) value { return true })
 	reg("time.runtimeNano time.now runtime.nanotime", func(fr *frame, args []value) value {
 		fr.m.clock += 1000
 		return fr.m.clock
@@ -468,10 +502,16 @@ func init() {
 		if v.t == nil {
 			unsupported("json.Encoder.Encode(nil)")
 		}
-		if b, ok := v.t.Underlying().(*types.Basic); !ok || b.Kind() != types.String {
-			unsupported("json.Encoder.Encode of %s (only strings are modelled)", v.t)
+		var out []value
+		if b, ok := v.t.Underlying().(*types.Basic); ok && b.Kind() == types.String {
+			out = fr.m.jsonEncodeString(fr, strBytes(v.v), escHTML)
+		} else {
+			var merr value
+			out, merr = fr.m.jsonMarshal(fr, v, escHTML)
+			if merr != nil {
+				return merr
+			}
 		}
-		out := fr.m.jsonEncodeString(fr, strBytes(v.v), escHTML)
 		out = append(out, uint8('\n'))
 		wi := w.(iface)
 		f := fr.m.methodOf(wi.t, "Write")
@@ -556,6 +596,7 @@ func init() {
 
 	registerSync(reg)
 	registerFmt(reg)
+	registerJSON(reg)
 }
 
 // jsonEncodeString: Go's encoding/json string encoding over possibly symbolic bytes (forking per
